@@ -64,6 +64,11 @@ func (c latencyCase) run(m *lib.Monitor) (maxLatency time.Duration) {
 	return 0
 }
 
+// backdated: change times that zigzag with the write number (not monotonic in write order)
+func backdated(i int) time.Time {
+	return timeBase.Add(time.Duration((i*7919)%97) * time.Second)
+}
+
 func (c latencyCase) valueIdle(m *lib.Monitor) (max time.Duration) {
 	v := resource.NewValue(resource.WithInitialValue(wrapperspb.String("v0")))
 	ctx, cancel := context.WithCancel(context.Background())
@@ -74,7 +79,9 @@ func (c latencyCase) valueIdle(m *lib.Monitor) (max time.Duration) {
 		last = fmt.Sprintf("v%d", i)
 		t0 := time.Now()
 		done := make(chan error, 1)
-		go func() { _, err := v.Set(wrapperspb.String(last)); done <- err }()
+		// change times go DOWN while the writes go on (WithWriteTime in the past): the most recent value is the last written
+		wt := resource.WithWriteTime(timeBase.Add(time.Duration(c.N-i) * time.Second))
+		go func() { _, err := v.Set(wrapperspb.String(last), wt); done <- err }()
 		select {
 		case err := <-done:
 			if err != nil {
@@ -162,7 +169,7 @@ func (c latencyCase) collectionIdle(m *lib.Monitor) (max time.Duration) {
 			continue
 		}
 		if !timed("ups "+id, func() error {
-			_, err := col.Update(id, wrapperspb.String(val), resource.WithCreateIfAbsent())
+			_, err := col.Update(id, wrapperspb.String(val), resource.WithCreateIfAbsent(), resource.WithWriteTime(backdated(len(id)+len(val))))
 			return err
 		}) {
 			return
@@ -363,7 +370,7 @@ func (c latencyCase) collectionStress(m *lib.Monitor) (max time.Duration) {
 			if o.del {
 				_, err = col.Delete(o.id)
 			} else {
-				_, err = col.Update(o.id, wrapperspb.String(o.val), resource.WithCreateIfAbsent())
+				_, err = col.Update(o.id, wrapperspb.String(o.val), resource.WithCreateIfAbsent(), resource.WithWriteTime(backdated(len(o.val))))
 			}
 			if d := time.Since(t0); d > max {
 				max = d
@@ -448,7 +455,7 @@ func (c latencyCase) valueStress(m *lib.Monitor) (max time.Duration) {
 				time.Sleep(p)
 			}
 			t0 := time.Now()
-			_, err := v.Set(wrapperspb.String(fmt.Sprintf("v%d", i)))
+			_, err := v.Set(wrapperspb.String(fmt.Sprintf("v%d", i)), resource.WithWriteTime(backdated(i)))
 			if d := time.Since(t0); d > max {
 				max = d
 			}
